@@ -154,3 +154,51 @@ package proxy
 //@   ensures [C18] hsts_removed: hdrAbsent(resp.Header, "Strict-Transport-Security")
 //@   loop 1
 //@     invariant forall k string :: visited(k) ==> hdrAbsent(resp.Header, canonhdr(k))
+
+// ---- C14: configuration resolves fail-closed and field by field ---------------------------------------------
+//@ func validateUpstreamConfig(proxy *UpstreamConfig) error
+//@   modifies nothing
+//@   ensures [C14] complete_or_error: result == nil <==> proxy.Service != "" && proxy.RouteConfig.From != "" && proxy.RouteConfig.To != ""
+
+// D / C: the service's default block and the selected cluster's block; DO / CO their option blocks.
+// A cluster block changes only the options it states: every restriction list it leaves empty keeps the
+// default block's value.
+//@ func resolveUpstreamConfig(service *ServiceConfig, override string) (*UpstreamConfig, error)
+//@   let D = service.ClusterConfigs["default"]
+//@   let C = service.ClusterConfigs[override]
+//@   let DO = old(D.RouteConfig.Options)
+//@   let CO = old(C.RouteConfig.Options)
+//@   let both = ("default" in old(service.ClusterConfigs)) && (override in old(service.ClusterConfigs)) && D != nil && C != nil && D != C && DO != nil && CO != nil && DO != CO
+//@   let R = result.0.RouteConfig.Options
+//@   ensures [C14] nothing_configured: !("default" in old(service.ClusterConfigs)) && !(override in old(service.ClusterConfigs)) ==> result.0 == nil && result.1 == nil
+//@   ensures [C14] groups_kept_unless_stated: both && result.1 == nil ==> R != nil && eqList(R.AllowedGroups, (len(old(CO.AllowedGroups)) > 0 ? old(CO.AllowedGroups) : old(DO.AllowedGroups)))
+//@   ensures [C14] domains_kept_unless_stated: both && result.1 == nil ==> eqList(R.AllowedEmailDomains, (len(old(CO.AllowedEmailDomains)) > 0 ? old(CO.AllowedEmailDomains) : old(DO.AllowedEmailDomains)))
+//@   ensures [C14] addresses_kept_unless_stated: both && result.1 == nil ==> eqList(R.AllowedEmailAddresses, (len(old(CO.AllowedEmailAddresses)) > 0 ? old(CO.AllowedEmailAddresses) : old(DO.AllowedEmailAddresses)))
+//@   ensures [C14] skip_auth_kept_unless_stated: both && result.1 == nil ==> eqList(R.SkipAuthRegex, (len(old(CO.SkipAuthRegex)) > 0 ? old(CO.SkipAuthRegex) : old(DO.SkipAuthRegex)))
+//@   ensures [C14] route_from_cluster_or_default: both && result.1 == nil ==> result.0.RouteConfig.From == (old(C.RouteConfig.From) != "" ? old(C.RouteConfig.From) : old(D.RouteConfig.From)) && result.0.RouteConfig.To == (old(C.RouteConfig.To) != "" ? old(C.RouteConfig.To) : old(D.RouteConfig.To))
+
+// An extra route inherits everything it does not state from its parent upstream.
+//@ func resolveExtraRoute(routeConfig *RouteConfig, src *UpstreamConfig) (*UpstreamConfig, error)
+//@   modifies routeConfig.Options.*
+//@   fresh result.0
+//@   let PO = src.RouteConfig.Options
+//@   let EO = routeConfig.Options
+//@   ensures [C14] own_route: result.1 == nil && routeConfig.From != "" && routeConfig.To != "" ==> result.0.RouteConfig.From == routeConfig.From && result.0.RouteConfig.To == routeConfig.To && result.0.Service == src.Service
+//@   ensures [C14] parent_options_when_none_stated: result.1 == nil && EO == nil ==> result.0.RouteConfig.Options == PO
+//@   ensures [C14] parent_restrictions_kept: result.1 == nil && EO != nil && PO != nil && EO != PO ==> result.0.RouteConfig.Options == EO && eqList(EO.AllowedGroups, (len(old(EO.AllowedGroups)) > 0 ? old(EO.AllowedGroups) : old(PO.AllowedGroups))) && eqList(EO.SkipAuthRegex, (len(old(EO.SkipAuthRegex)) > 0 ? old(EO.SkipAuthRegex) : old(PO.SkipAuthRegex))) && eqList(EO.AllowedEmailDomains, (len(old(EO.AllowedEmailDomains)) > 0 ? old(EO.AllowedEmailDomains) : old(PO.AllowedEmailDomains))) && eqList(EO.AllowedEmailAddresses, (len(old(EO.AllowedEmailAddresses)) > 0 ? old(EO.AllowedEmailAddresses) : old(PO.AllowedEmailAddresses)))
+
+// O: the upstream's own (already resolved) option block; Df: the deployment defaults.
+// merged(f) = O.f if the block states f, else Df.f. Every listed pattern compiles or loading fails.
+//@ func parseOptionsConfig(proxy *UpstreamConfig, defaultOpts *OptionsConfig) error
+//@   let O = old(proxy.RouteConfig.Options)
+//@   let Df = defaultOpts
+//@   let skip = (O != nil && len(old(O.SkipAuthRegex)) > 0) ? old(O.SkipAuthRegex) : (Df != nil ? old(Df.SkipAuthRegex) : O.SkipAuthRegex[:0])
+//@   ensures [C14] groups_own_or_default: result == nil && Df != nil ==> eqList(proxy.AllowedGroups, (O != nil && len(old(O.AllowedGroups)) > 0) ? old(O.AllowedGroups) : old(Df.AllowedGroups))
+//@   ensures [C14] domains_own_or_default: result == nil && Df != nil ==> eqList(proxy.AllowedEmailDomains, (O != nil && len(old(O.AllowedEmailDomains)) > 0) ? old(O.AllowedEmailDomains) : old(Df.AllowedEmailDomains))
+//@   ensures [C14] addresses_own_or_default: result == nil && Df != nil ==> eqList(proxy.AllowedEmailAddresses, (O != nil && len(old(O.AllowedEmailAddresses)) > 0) ? old(O.AllowedEmailAddresses) : old(Df.AllowedEmailAddresses))
+//@   ensures [C14] slug_own_or_default: result == nil && Df != nil ==> proxy.ProviderSlug == ((O != nil && old(O.ProviderSlug) != "") ? old(O.ProviderSlug) : old(Df.ProviderSlug))
+//@   ensures [C14] every_pattern_compiled: result == nil && Df != nil ==> len(proxy.SkipAuthCompiledRegex) == old(len(proxy.SkipAuthCompiledRegex)) + len((O != nil && len(old(O.SkipAuthRegex)) > 0) ? old(O.SkipAuthRegex) : old(Df.SkipAuthRegex))
+//@   ensures [C14] patterns_in_order: result == nil && Df != nil && old(len(proxy.SkipAuthCompiledRegex)) == 0 ==> forall i :: 0 <= i && i < len(proxy.SkipAuthCompiledRegex) ==> proxy.SkipAuthCompiledRegex[i] != nil && regexSource(proxy.SkipAuthCompiledRegex[i]) == ((O != nil && len(old(O.SkipAuthRegex)) > 0) ? old(O.SkipAuthRegex) : old(Df.SkipAuthRegex))[i]
+//@   loop 1
+//@     invariant len(proxy.SkipAuthCompiledRegex) == old(len(proxy.SkipAuthCompiledRegex)) + $i
+//@     invariant old(len(proxy.SkipAuthCompiledRegex)) == 0 ==> forall j :: 0 <= j && j < $i ==> proxy.SkipAuthCompiledRegex[j] != nil && regexSource(proxy.SkipAuthCompiledRegex[j]) == dst.SkipAuthRegex[j]
